@@ -2,6 +2,7 @@ import Femio.Model.Attr
 import Femio.Model.Core
 import Femio.Lemmas.AttrProps
 import Femio.Lemmas.AttrUpdate
+import Femio.Lemmas.AttrHist
 import Femio.Lemmas.CoreProps
 
 /-! C08 — an attribute is one id-keyed table whichever way it is accessed.  Property theorems.
@@ -202,6 +203,144 @@ theorem C08_update_spec (cfg : Cfg) (s t : State) (ids' : List Nat) (rows : List
 example : (updateOverwrite Cfg.fixed s0 [9, 4] [[none], [some 7]]).map (fun t => (t.ids, t.frame))
     = .ok ([3, 4, 5, 9], [[some 3], [some 7], [some 1], [some 5]]) := by decide
 
+/-! ### histories with references retained by the caller; collections -/
+
+/-- **C08_hist_inv**: in a history in which the caller keeps slices (`a.loc[…]`, `a.iloc[…]`), arrays returned by
+`.data` and the `data_frame` alive across later updates, every step — a public update of the attribute, taking or
+dropping a slice, keeping a reference, assigning to / updating a slice taken EARLIER (write-through to the parent as
+it is now) — preserves "the attribute and every slice still held are consistent tables". -/
+theorem C08_hist_inv (h : Hist) (op : HOp) (hi : HInv h) : HInv (hstep Cfg.fixed h op) := hinv_step_fixed h op hi
+
+/-- **C08_hist_reachable**: … hence after any finite interleaving of parent and slice writes. -/
+theorem C08_hist_reachable (h : Hist) (ops : List HOp) (hi : HInv h) : HInv (ops.foldl (hstep Cfg.fixed) h) :=
+  hinv_reachable_fixed h ops hi
+
+/-- **C08_keepRef_noop**: keeping what a read path returned is not an update. -/
+theorem C08_keepRef_noop (cfg : Cfg) (h : Hist) : (hstep cfg h .keepRef).cur = h.cur ∧ (hstep cfg h .keepRef).held = h.held :=
+  ⟨rfl, rfl⟩
+
+theorem lookupRow_some_of_mem (ids : List Nat) (rows : List Row) (hl : ids.length = rows.length) (i : Nat) (hi : i ∈ ids) :
+    ∃ r, lookupRow ids rows i = some r := by
+  rw [lookupRow_zip]; exact assocLookup_some_of_mem _ i (by rw [zip_keys ids rows hl]; exact hi)
+
+theorem mem_of_lookupRow_some (ids : List Nat) (rows : List Row) (hl : ids.length = rows.length) (i : Nat) (r : Row)
+    (h : lookupRow ids rows i = some r) : i ∈ ids := by
+  by_cases hi : i ∈ ids
+  · exact hi
+  · rw [lookupRow_zip, assocLookup_none_of_not_mem _ i (by rw [zip_keys ids rows hl]; exact hi)] at h
+    cases h
+
+/-- **C08_write_through_by_id**: a successful write through an id-selected slice (distinct selected ids) keeps the
+ids and their order; looked up by id afterwards, a selected id holds the row written for it and every other id
+keeps its row.  (`locWrite` is what `_update_parent` does; the parent `p` is the parent at the time of the WRITE.) -/
+theorem C08_write_through_by_id (p t : State) (sel : List Nat) (v : List Row)
+    (h : locWrite Cfg.fixed p sel v = .ok t) (hinv : AInv p) (hn : sel.Nodup) :
+    t.ids = p.ids ∧ ∀ i, locView t i = match lookupRow sel v i with
+      | some r => some r
+      | none => locView p i := by
+  obtain ⟨_, hlen, _⟩ := hinv
+  unfold locWrite at h
+  split at h
+  · cases h
+  · rename_i hall
+    split at h
+    · cases h
+    · rename_i hl
+      have hl' : sel.length = v.length := by simpa using hl
+      cases h
+      refine ⟨rfl, ?_⟩
+      intro i
+      unfold locView
+      simp only
+      rw [show (fun fr (x : Nat × Row) => match x with | (i, r) => setRow p.ids fr i r)
+            = (fun fr (q : Nat × Row) => setRow p.ids fr q.1 q.2) from by funext fr ⟨i, r⟩; rfl]
+      rw [lookupRow_foldl_setRow p.ids (sel.zip v) p.frame hlen (by rw [zip_keys sel v hl']; exact hn) i,
+        ← lookupRow_zip]
+      cases hs : lookupRow sel v i with
+      | none => rfl
+      | some r =>
+        have hi : i ∈ sel := mem_of_lookupRow_some sel v hl' i r hs
+        have hip : i ∈ p.ids := by
+          have := hall
+          simp only [List.any_eq_true, Bool.not_eq_true', not_exists, not_and] at this
+          have h2 := this i hi
+          simpa using h2
+        obtain ⟨q, hq⟩ := lookupRow_some_of_mem p.ids p.frame hlen i hip
+        simp [hq]
+
+/-- **C08_held_write_by_id**: a slice taken earlier and kept while the parent was updated (rows inserted in front,
+re-sorted, overwritten …) still writes BY ID: whatever the current parent `h.cur` looks like, after
+`held[k].data = v` the ids of the slice hold the new rows in the parent, every other id keeps its row, the slice
+itself holds the new rows, and the parent keeps its ids. -/
+theorem C08_held_write_by_id (h : Hist) (k : Nat) (c : State) (v : List Row) (hi : HInv h)
+    (hk : h.held[k]? = some c) (hn : c.ids.Nodup) (hl : c.ids.length = v.length) (hsub : ∀ i ∈ c.ids, i ∈ h.cur.ids) :
+    ∃ p', hstepE Cfg.fixed h (.heldSet k v) =
+        (none, { h with cur := p', held := h.held.set k { c with frame := v, data := v }, vws := h.vws.set k none }) ∧
+      p'.ids = h.cur.ids ∧
+      (∀ i, locView p' i = match lookupRow c.ids v i with | some r => some r | none => locView h.cur i) := by
+  have hw : ∃ p', writeBack Cfg.fixed h.cur { c with frame := v, data := v } = .ok p' := by
+    unfold writeBack locWrite
+    have h1 : (c.ids.any fun i => !h.cur.ids.contains i) = false := by
+      rw [List.any_eq_false]; intro i hi'; simpa using hsub i hi'
+    simp only [h1, Bool.false_eq_true, if_false]
+    have h2 : ¬ (c.ids.length ≠ v.length) := by simpa using hl
+    simp only [h2, if_false]
+    exact ⟨_, rfl⟩
+  obtain ⟨p', hp'⟩ := hw
+  refine ⟨p', ?_, ?_⟩
+  · have h2 : ¬ (c.ids.length ≠ v.length) := by simpa using hl
+    simp only [hstepE, heldApply, hk, setData, h2, if_false, hp', refreshAliases_fixed]
+  · have := C08_write_through_by_id h.cur p' c.ids v (by simpa [writeBack] using hp') hi.1 hn
+    exact this
+
+/-- non-vacuity (the history of seeded change C08-5): slice `[30]` taken, then an update inserts id 5 in front of the
+parent's rows, then the slice is assigned — id 30 holds the new row, id 20 (now at the slice's old position) keeps its own -/
+example : let h0 : Hist := ⟨⟨[10, 20, 30, 40], [[some 1], [some 2], [some 3], [some 4]], [[some 1], [some 2], [some 3], [some 4]],
+      some (enumIds [10, 20, 30, 40])⟩, [], 0, []⟩
+    let h := [HOp.take [30], .keepRef, .pub (.update [5] [[some 0]] true), .heldSet 0 [[some (-7)]]].foldl (hstep Cfg.fixed) h0
+    (h.cur.ids, h.cur.data, h.cur.frame == h.cur.data, h.held.map (·.frame)) =
+      ([5, 10, 20, 30, 40], [[some 0], [some 1], [some 2], [some (-7)], [some 4]], true, [[[some (-7)]]]) := by decide
+
+/-- **C08_collection_filter**: `FEMAttributes.filter_with_ids(sel)` / `extract_dict(sel)` on a collection of consistent
+attributes — each with its OWN ids in its OWN order — returns for every attribute and every selected id the positional
+row stored at the position that id has in THAT attribute (never at the position it has in another attribute). -/
+theorem C08_collection_filter (c : List State) (sel : List Nat) (hinv : ∀ s ∈ c, AInv s) :
+    collFilter c sel = c.mapM fun s => sel.mapM fun i => (posOf s.ids i).bind (dataView s) := by
+  unfold collFilter
+  induction c with
+  | nil => rfl
+  | cons s t ih =>
+    have hs : filterWithIds s sel = sel.mapM fun i => (posOf s.ids i).bind (dataView s) := by
+      obtain ⟨hfd, hlen, _⟩ := hinv s (by simp)
+      unfold filterWithIds
+      congr 1
+      funext i
+      unfold locView dataView
+      rw [lookupRow_posOf s.ids s.frame hlen i, hfd]
+    rw [List.mapM_cons, List.mapM_cons, hs, ih (fun u hu => hinv u (by simp [hu]))]
+
+/-- non-vacuity (the collection of seeded change C08-6): two attributes over the same six ids stored in different
+orders, filtered by `[2, 5, 6]` -/
+example : collFilter [⟨[1, 2, 3, 4, 5, 6], [[some 10], [some 20], [some 30], [some 40], [some 50], [some 60]],
+      [[some 10], [some 20], [some 30], [some 40], [some 50], [some 60]], none⟩,
+    ⟨[4, 6, 2, 1, 5, 3], [[some 400], [some 600], [some 200], [some 100], [some 500], [some 300]],
+      [[some 400], [some 600], [some 200], [some 100], [some 500], [some 300]], none⟩] [2, 5, 6]
+    = some [[[some 20], [some 50], [some 60]], [[some 200], [some 500], [some 600]]] := by decide
+
+/-- **C08_collection_set_attribute**: `set_attribute_data` creates a consistent attribute over the ids of the first
+attribute of the collection, in that attribute's order. -/
+theorem C08_collection_set_attribute (s a : State) (t : List State) (v : List Row)
+    (h : collSetAttr (s :: t) v = .ok a) : a.ids = s.ids ∧ a.data = v ∧ AInv a := by
+  unfold collSetAttr at h
+  simp only at h
+  split at h
+  · cases h
+  · have hi := inv_mk s.ids v false a h
+    unfold mk at h
+    split at h
+    · cases h
+    · cases h; exact ⟨rfl, rfl, hi⟩
+
 /-! ### mixed-type element collections (`FEMElementalAttribute._update_self`) -/
 
 theorem insertElem_sorted (e : Elem) (l : List Elem) (hl : l.Pairwise (fun a b => a.id ≤ b.id)) :
@@ -279,5 +418,30 @@ theorem C08_counterexample_overwrite : InvB (step Cfg.current s0 (.overwrite [[s
 /-- F4: `update` re-sorts the ids but keeps the old id→position map -/
 theorem C08_counterexample_update_index : InvB (step Cfg.current s0 (.update [1] [[some 0]] true)) = false :=
   update_breaks_current
+
+/-! ### round 3: two more upstream defects around slices (each replayed on the implementation: corpus/C08/F16, F17) -/
+
+def sDense : State := ⟨[1, 2, 3], [[some 1], [some 2], [some 3]], [[some 1], [some 2], [some 3]], none⟩
+def cfgNoLabel : Cfg := { Cfg.fixed with ilocLabel := false }
+def cfgViews : Cfg := { Cfg.fixed with sliceOwnsData := false }
+
+/-- F16: `a.iloc[2]` (one int) was labelled with the position: on ids 1..3 the slice of position 2 (id 3) calls itself id 2,
+and assigning to it overwrites the row of id 2 while id 3 — the row that was selected — keeps its value -/
+theorem C08_counterexample_iloc_scalar :
+    let h := [HOp.takeI1 2, .heldSet 0 [[some 99]]].foldl (hstep cfgNoLabel) ⟨sDense, [], 0, []⟩
+    (h.held.map (·.ids), h.cur.ids, h.cur.data) = ([[2]], [1, 2, 3], [[some 1], [some 99], [some 3]]) := by decide
+/-- … the repaired code labels it with id 3 and writes the row of id 3 -/
+example : let h := [HOp.takeI1 2, .heldSet 0 [[some 99]]].foldl (hstep Cfg.fixed) ⟨sDense, [], 0, []⟩
+    (h.held.map (·.ids), h.cur.ids, h.cur.data) = ([[3]], [1, 2, 3], [[some 1], [some 2], [some 99]]) := by decide
+
+/-- F17: a slice that pandas serves as a view (`a.iloc[0:2]`) kept its positional rows as a view of the parent's block and
+its id-keyed rows as a copy: after a later write to the parent the slice's two views disagree -/
+theorem C08_counterexample_slice_alias :
+    let h := [HOp.takeView [0, 1], .pub (.locWrite [2] [[some (-20)]])].foldl (hstep cfgViews) ⟨sDense, [], 0, []⟩
+    h.held.map InvB = [false] ∧ h.held.map (·.data) = [[[some 1], [some (-20)]]] ∧ h.held.map (·.frame) = [[[some 1], [some 2]]] := by
+  decide
+/-- … in the repaired code the slice is a snapshot in both views -/
+example : let h := [HOp.takeView [0, 1], .pub (.locWrite [2] [[some (-20)]])].foldl (hstep Cfg.fixed) ⟨sDense, [], 0, []⟩
+    h.held.map InvB = [true] ∧ h.held.map (·.data) = [[[some 1], [some 2]]] := by decide
 
 end Femio.C08
